@@ -35,49 +35,49 @@ PROPS = {
     "C20": dict(monitor="C20", proj="C20", modules=["C20", "C20g"], cfgs=ALL3, quick=900, thorough=12000,
                 gens=[(CONC, "random", 1.0), (GROUPS, "random", 0.5), (CONC + GROUPS, "stuck", 0.6)],
                 assumptions=COMMON_ASSUME),
-    "C04": dict(monitor="C04", proj="FUN", cfgs=ALL3, quick=1500, thorough=20000,
+    "C04": dict(monitors=["C04", "NP"], monitor="C04", modules=["C04", "C01"], proj="FUN", cfgs=ALL3, quick=1500, thorough=20000,
                 gens=[(["join"], "random", 1.0), (["join"], "stuck", 0.3), (["join"], "panic", 0.2),
                       (["join"], "big", 0.08), (["join"], "waves", 0.25)],
                 assumptions=COMMON_ASSUME),
-    "C05": dict(monitors=["C05", "C02"], monitor="C05", proj="FUN+C02", modules=["C05", "C02a"], cfgs=ALL3, quick=1500, thorough=20000,
+    "C05": dict(monitors=["C05", "C02", "NP"], monitor="C05", proj="FUN+C02", modules=["C05", "C02a", "C01"], cfgs=ALL3, quick=1500, thorough=20000,
                 gens=[(["try_join"], "random", 1.0), (["try_join"], "errs", 0.6), (["try_join"], "stuck", 0.2),
                       (["try_join"], "panic", 0.2), (["try_join"], "big", 0.08), (["try_join"], "waves", 0.2)],
                 assumptions=COMMON_ASSUME),
-    "C06": dict(monitor="C06", proj="C03", cfgs=ALL3, quick=1500, thorough=20000,
+    "C06": dict(monitors=["C06", "NP"], monitor="C06", modules=["C06", "C01"], proj="C03", cfgs=ALL3, quick=1500, thorough=20000,
                 gens=[(["race"], "random", 1.0), (["race"], "stuck", 0.4), (["race"], "panic", 0.2),
                       (["race"], "big", 0.08)],
                 assumptions=COMMON_ASSUME + ["racing zero futures is outside C06 (the real code divides by zero in "
                                              "Indexer::iter); the generator uses n >= 1"]),
-    "C07": dict(monitor="C07", proj="FUN", cfgs=ALL3, quick=1500, thorough=20000,
+    "C07": dict(monitors=["C07", "NP"], monitor="C07", modules=["C07", "C01"], proj="FUN", cfgs=ALL3, quick=1500, thorough=20000,
                 gens=[(["race_ok"], "random", 1.0), (["race_ok"], "errs", 0.8), (["race_ok"], "stuck", 0.2),
                       (["race_ok"], "panic", 0.2), (["race_ok"], "big", 0.08), (["race_ok"], "waves", 0.2)],
                 assumptions=COMMON_ASSUME),
-    "C19": dict(monitor="C19", proj="FUN", cfgs=ALL3, quick=1500, thorough=20000,
+    "C19": dict(monitors=["C19", "NP"], monitor="C19", modules=["C19", "C01seq"], proj="FUN", cfgs=ALL3, quick=1500, thorough=20000,
                 gens=[(["wait_f", "wait_s"], "random", 1.0), (["wait_f", "wait_s"], "stuck", 0.3),
                       (["wait_f", "wait_s"], "panic", 0.2)],
                 assumptions=COMMON_ASSUME + ["child scripts have the kind of their child (Case.kindOk): a future only "
                                              "resolves, a stream only yields/ends - enforced by Rust's types"]),
-    "C08": dict(monitor="C08", proj="FUN", cfgs=ALL3, quick=2500, thorough=30000,
+    "C08": dict(monitors=["C08", "NP"], monitor="C08", modules=["C08", "C01"], proj="FUN", cfgs=ALL3, quick=2500, thorough=30000,
                 gens=[(["merge"], "random", 1.0), (["merge"], "fair", 0.4), (["merge"], "stuck", 0.2),
                       (["merge"], "panic", 0.2), (["merge"], "big", 0.08), (["merge"], "waves", 0.1)],
                 assumptions=COMMON_ASSUME),
-    "C09": dict(monitors=["C09", "C02"], monitor="C09", proj="FUN+C02", modules=["C09", "C02a"], cfgs=ALL3, quick=2500, thorough=30000,
+    "C09": dict(monitors=["C09", "C02", "NP"], monitor="C09", proj="FUN+C02", modules=["C09", "C02a", "C01"], cfgs=ALL3, quick=2500, thorough=30000,
                 gens=[(["zip"], "random", 1.0), (["zip"], "fair", 0.4), (["zip"], "stuck", 0.2),
                       (["zip"], "panic", 0.2), (["zip"], "big", 0.08), (["zip"], "waves", 0.1)],
                 assumptions=COMMON_ASSUME + ["zip over zero inputs is outside C09"]),
-    "C10": dict(monitors=["C10", "C03"], monitor="C10", proj="FUN", cfgs=ALL3, quick=2500, thorough=30000,
+    "C10": dict(monitors=["C10", "C03", "NP"], monitor="C10", modules=["C10", "C01seq"], proj="FUN", cfgs=ALL3, quick=2500, thorough=30000,
                 gens=[(["chain"], "random", 1.0), (["chain"], "fair", 0.4), (["chain"], "stuck", 0.2),
                       (["chain"], "panic", 0.2), (["chain"], "big", 0.08)],
                 assumptions=COMMON_ASSUME),
-    "C17": dict(monitor="C17", proj="FUN", cfgs=ALL3, quick=2500, thorough=30000,
+    "C17": dict(monitors=["C17", "NP"], monitor="C17", modules=["C17", "C01"], proj="FUN", cfgs=ALL3, quick=2500, thorough=30000,
                 gens=[(["merge"], "fair", 1.0), (["merge"], "random", 0.5), (["merge"], "stuck", 0.2)],
                 assumptions=COMMON_ASSUME),
-    "C11": dict(monitor="C11", proj="GRP", cfgs=["std", "alloc"], quick=3000, thorough=40000,
+    "C11": dict(monitors=["C11", "NP"], monitor="C11", modules=["C11", "C01g"], proj="GRP", cfgs=["std", "alloc"], quick=3000, thorough=40000,
                 gens=[(["fgroup"], "random", 1.0), (["fgroup"], "big", 0.5), (["fgroup"], "stuck", 0.3),
                       (["fgroup"], "panic", 0.2)],
                 assumptions=COMMON_ASSUME + ["every inserted future is a new object (Case.insertsFresh) of the right "
                                              "kind (Case.kindOk)"]),
-    "C12": dict(monitor="C12", proj="GRP", cfgs=["std", "alloc"], quick=3000, thorough=40000,
+    "C12": dict(monitors=["C12", "NP"], monitor="C12", modules=["C12", "C01g"], proj="GRP", cfgs=["std", "alloc"], quick=3000, thorough=40000,
                 gens=[(["sgroup"], "random", 1.0), (["sgroup"], "big", 0.5), (["sgroup"], "stuck", 0.3),
                       (["sgroup"], "panic", 0.2)],
                 assumptions=COMMON_ASSUME + ["every inserted stream is a new object (Case.insertsFresh) of the right "
